@@ -26,15 +26,23 @@ Lemma position_row_is_written_after_the_workspace_rows : c09_null_wsid_last = tr
 Proof. reflexivity. Qed.
 Lemma view_storage_is_flushed_last : c09_flush_view_last = true.
 Proof. reflexivity. Qed.
+(* an event whose workspace descriptor cannot be read yet fails the pipeline (and comes back after the
+   restart); it is not passed over as "projector not defined in that workspace" *)
+Lemma missing_descriptor_is_an_error : c09_descriptor_must_exist = true.
+Proof. reflexivity. Qed.
 Lemma pipeline_input_has_room : 0 < c09_pipeline_stdin_cap.
 Proof. reflexivity. Qed.
 
 (* the code's configurations: any bundle limit, buffered or not (second storage), any position interval *)
 Definition code_cfg (limit : N) (nonbuf : bool) (posticks : N) : cfg :=
-  mkCfg limit nonbuf posticks c09_plog_read_batch_size c09_pipeline_stdin_cap c09_null_wsid_last c09_flush_view_last.
+  mkCfg limit nonbuf posticks c09_plog_read_batch_size c09_pipeline_stdin_cap c09_null_wsid_last c09_flush_view_last
+        c09_descriptor_must_exist c09_event_released_before_flush.
 
 Lemma code_cfg_ok : forall lim nb pt, cfg_ok (code_cfg lim nb pt).
-Proof. intros. constructor; [exact read_batches_are_not_empty | exact position_row_is_written_after_the_workspace_rows]. Qed.
+Proof.
+  intros. constructor; [exact read_batches_are_not_empty | exact position_row_is_written_after_the_workspace_rows
+                       | exact missing_descriptor_is_an_error].
+Qed.
 
 (* every checked trace is evaluated in such a configuration *)
 Lemma checked_configurations : forall t, cfg_of t = code_cfg (t_limit t) (t_nonbuf t) (t_posticks t).
@@ -44,10 +52,10 @@ Proof. reflexivity. Qed.
    follow the position the initialisation read, in log order, each once, none skipped:
    `tracked l` = (position read by the last init, offsets invoked since). *)
 Theorem invoked_in_order : forall c l s,
-  0 < c_batch c -> c_nulllast c = true -> runG false c init l = Some s ->
+  0 < c_batch c -> c_nulllast c = true -> c_descmust c = true -> runG false c init l = Some s ->
   exists k, snd (tracked l) = filter (trig (lg (sp s))) (seqN (fst (tracked l) + 1) k)
             /\ fst (tracked l) + N.of_nat k <= len (lg (sp s)).
-Proof. exact (fun c l s Hb Hn => invoked_in_order_proved c l s (Build_cfg_ok c Hb Hn)). Qed.
+Proof. exact (fun c l s Hb Hn Hd => invoked_in_order_proved c l s (Build_cfg_ok c Hb Hn Hd)). Qed.
 
 (* The persisted resume position is never ahead of the persisted effects: at every instant of every
    run of the code's configurations - in particular right after each storage call, whatever fails or
@@ -66,31 +74,45 @@ Qed.
 (* The view rows alone do not depend on the order of the storages: any configuration that writes the
    position batch last inside the view storage. *)
 Theorem position_le_effects : forall c l s,
-  0 < c_batch c -> c_nulllast c = true -> runG false c init l = Some s ->
+  0 < c_batch c -> c_nulllast c = true -> c_descmust c = true -> runG false c init l = Some s ->
   forall o, o <= pos (sp s) -> trig (lg (sp s)) o = true -> In o (eff (sp s)).
-Proof. exact (fun c l s Hb Hn => position_le_effects_proved c l s (Build_cfg_ok c Hb Hn)). Qed.
+Proof. exact (fun c l s Hb Hn Hd => position_le_effects_proved c l s (Build_cfg_ok c Hb Hn Hd)). Qed.
 
 (* The variant of the model in which FlushBundles applies the storages in Go map order (c_viewlast =
    false: the code before the repair of F21) refutes the statement for mails: the view storage - and
    with it the position - is written before the mail is sent; the mail then fails, the restart resumes
    behind the event and the mail is never sent. *)
 Theorem position_le_all_effects_refuted : exists c l s o,
-  0 < c_batch c /\ c_nulllast c = true /\ c_viewlast c = false /\ runG false c init l = Some s /\
+  0 < c_batch c /\ c_nulllast c = true /\ c_descmust c = true /\ c_viewlast c = false /\ runG false c init l = Some s /\
   o <= pos (sp s) /\ trig (lg (sp s)) o = true /\ mailev c (lg (sp s)) o = true /\ ~ In o (mails (sp s)).
 Proof.
-  exists (mkCfg 100 true 3 50 1 true false).
-  exists [Append (mkEv true 1001 true); Start; RInitOk 0; RReadEnd [1]; HSend; HTake; PInvoke 1 true;
+  exists (mkCfg 100 true 3 50 1 true false true false).
+  exists [Append (mkEv true 1001 true); Start; RInitOk 0; RReadEnd [1]; HSend; HTake; PLookup 1 true; PInvoke 1 true;
           PPutWS 1001 [1] VOk; PPutPos 1 VOk; PMail 1 false; HNotice; HClose; HClosed; Tick; RInitOk 1; RReadEnd []].
-  eexists. exists 1. split; [reflexivity|]. split; [reflexivity|]. split; [reflexivity|].
+  eexists. exists 1. split; [reflexivity|]. split; [reflexivity|]. split; [reflexivity|]. split; [reflexivity|].
   split; [vm_compute; reflexivity|]. cbn. split; [discriminate|]. split; [reflexivity|]. split; [reflexivity|]. intros [].
 Qed.
 
 (* ... in that variant it holds for exactly the runs in which each flush sends its mails before it
    writes the position (the hypothesis that excludes the witness above). *)
 Theorem position_le_all_effects_partial : forall c l s,
-  0 < c_batch c -> c_nulllast c = true -> runG true c init l = Some s ->
+  0 < c_batch c -> c_nulllast c = true -> c_descmust c = true -> runG true c init l = Some s ->
   forall o, o <= pos (sp s) -> trig (lg (sp s)) o = true -> mailev c (lg (sp s)) o = true -> In o (mails (sp s)).
-Proof. exact (fun c l s Hb Hn => position_le_mails_partial_proved c l s (Build_cfg_ok c Hb Hn)). Qed.
+Proof. exact (fun c l s Hb Hn Hd => position_le_mails_partial_proved c l s (Build_cfg_ok c Hb Hn Hd)). Qed.
+
+(* The side condition `missing_descriptor_is_an_error` is needed: in the variant of the model that passes
+   over an event whose workspace descriptor cannot be read yet (CanExist instead of MustExist in
+   isProjectorDefined) the position moves past a triggering event the projector never saw. *)
+Theorem position_le_effects_refuted_without_descriptor_error : exists c l s o,
+  0 < c_batch c /\ c_nulllast c = true /\ c_descmust c = false /\ runG false c init l = Some s /\
+  o <= pos (sp s) /\ trig (lg (sp s)) o = true /\ ~ In o (eff (sp s)).
+Proof.
+  exists (mkCfg 100 false 0 50 1 true true false false).
+  exists [Append (mkEv true 1001 false); Start; RInitOk 0; RReadEnd [1]; HSend; HTake; PLookup 1 false;
+          Tick; HTimer; PFlushStart; PPutPos 1 VOk].
+  eexists. exists 1. split; [reflexivity|]. split; [reflexivity|]. split; [reflexivity|].
+  split; [vm_compute; reflexivity|]. cbn. split; [discriminate|]. split; [reflexivity|]. intros [].
+Qed.
 
 (* After any stop, error or restart the actualizer resumes from the stored position, which is before
    the first triggering event that misses an effect (view row or mail). *)
@@ -123,10 +145,14 @@ Theorem accepted_traces_are_runs : forall c l l' s,
 Proof. exact (fun c l l' s H => elaborate_runG_proved c l init l' s H). Qed.
 
 (* ... and the oracle the check evaluates on observed values alone (`satisfies`) passes on every such
-   trace: what `satisfies` demands is implied by the theorems, so an oracle failure never comes from
-   a trace on which code and model agree. *)
+   trace: what `satisfies` demands is implied by the theorems.  The one thing the model leaves open is the
+   content of stored rows while DoAsync releases an event whose intents are still buffered (finding
+   C09-F2: `no_bad` = no look at the store found a row with another event's content); once events are
+   held until their flush the hypothesis is void and an oracle failure never comes from a trace on
+   which code and model agree. *)
 Theorem agrees_implies_satisfies : forall t,
-  (t_quiet t = true -> exists l0 p effs ms, t_acts t = l0 ++ [Check p effs ms]) ->
+  (t_quiet t = true -> exists l0 p effs ms bad, t_acts t = l0 ++ [Check p effs ms bad]) ->
+  (c09_event_released_before_flush = true -> no_bad (t_acts t) = true) ->
   agrees t = true -> dom_ok 0 (t_acts t) = true -> satisfies t = true.
 Proof.
   exact (fun t => agrees_implies_satisfies_proved t (code_cfg_ok _ _ _) (fun _ => view_storage_is_flushed_last)).
@@ -139,11 +165,11 @@ Definition ex_cfg : cfg := code_cfg 2 false 3.
    timer flush, one more event read after a notification, stop in the middle of its flush *)
 Definition ex_run : list act :=
   [Append (mkEv true 1001 false); Append (mkEv false 1002 false); Append (mkEv true 1002 false); Start; RInitOk 0;
-   RReadEnd [1; 2; 3]; HSend; HTake; PInvoke 1 true; HSend; HSkip; HSend; HTake; PInvoke 3 true;
+   RReadEnd [1; 2; 3]; HSend; HTake; PLookup 1 true; PInvoke 1 true; HSend; HSkip; HSend; HTake; PLookup 3 true; PInvoke 3 true;
    PPutWS 1002 [3] VOk; PPutWS 1001 [1] VOk; PPutPos 3 VBefore; HNotice; HClose; HClosed; Tick; RInitOk 0;
-   RReadEnd [1; 2; 3]; HSend; HTake; PInvoke 1 true; HSend; HSkip; HSend; HTake; PInvoke 3 true;
+   RReadEnd [1; 2; 3]; HSend; HTake; PLookup 1 true; PInvoke 1 true; HSend; HSkip; HSend; HTake; PLookup 3 true; PInvoke 3 true;
    PPutWS 1001 [1] VOk; PPutWS 1002 [3] VOk; PPutPos 3 VOk; HFlushDone; RReadEnd []; Append (mkEv true 1001 false); Notify 4;
-   HDeliver; RReadOne 4 true; HLoopExit; HSend; HTake; HNextRound; HLoopExit; PInvoke 4 true; Tick; HTimer; PFlushStart;
+   HDeliver; RReadOne 4 true; HLoopExit; HSend; HTake; HNextRound; HLoopExit; PLookup 4 true; PInvoke 4 true; Tick; HTimer; PFlushStart;
    PPutWS 1001 [4] VOk; Stop; PPutPos 4 VOk; HFlushDone; HNotice; HClose; HClosed].
 
 Example run_nonvacuous : exists s,
@@ -164,16 +190,28 @@ Proof. eexists. split; [vm_compute; reflexivity|]. split; reflexivity. Qed.
    nothing behind and the event is projected again *)
 Example all_effects_nonvacuous : exists s,
   runG false (code_cfg 100 true 3) init
-    [Append (mkEv true 1001 true); Start; RInitOk 0; RReadEnd [1]; HSend; HTake; PInvoke 1 true; PMail 1 false;
-     HNotice; HClose; HClosed; Tick; RInitOk 0; RReadEnd [1]; HSend; HTake; PInvoke 1 true; PMail 1 true;
+    [Append (mkEv true 1001 true); Start; RInitOk 0; RReadEnd [1]; HSend; HTake; PLookup 1 true; PInvoke 1 true; PMail 1 false;
+     HNotice; HClose; HClosed; Tick; RInitOk 0; RReadEnd [1]; HSend; HTake; PLookup 1 true; PInvoke 1 true; PMail 1 true;
      PPutWS 1001 [1] VOk; PPutPos 1 VOk; HFlushDone] = Some s /\
   pos (sp s) = 1 /\ mails (sp s) = [1] /\ mailev (code_cfg 100 true 3) (lg (sp s)) 1 = true.
 Proof. eexists. split; [vm_compute; reflexivity|]. repeat split; reflexivity. Qed.
 
+(* the workspace descriptor of the event is not readable yet when the catching-up actualizer reaches it:
+   the pipeline fails, nothing is stored, the restart comes back to the event *)
+Example descriptor_absent_nonvacuous : exists s,
+  runG false (code_cfg 1 false 3) init
+    [Append (mkEv true 1001 false); Start; RInitOk 0; RReadEnd [1]; HSend; HTake; PLookup 1 false;
+     HNotice; HClose; HClosed; Tick; RInitOk 0; RReadEnd [1]; HSend; HTake; PLookup 1 true; PInvoke 1 true;
+     PPutWS 1001 [1] VOk; PPutPos 1 VOk; HFlushDone] = Some s /\
+  pos (sp s) = 1 /\ eff (sp s) = [1] /\ tracked
+    [Append (mkEv true 1001 false); Start; RInitOk 0; RReadEnd [1]; HSend; HTake; PLookup 1 false;
+     HNotice; HClose; HClosed; Tick; RInitOk 0; RReadEnd [1]; HSend; HTake; PLookup 1 true; PInvoke 1 true] = (0, [1]).
+Proof. eexists. split; [vm_compute; reflexivity|]. repeat split; reflexivity. Qed.
+
 Example accepted_trace_nonvacuous :
   agrees (mkTrace 2 false 3 true
-    [Append (mkEv true 1001 false); Start; RInitOk 0; RReadEnd [1]; PInvoke 1 true; RReadEnd []; Notify 1; Tick; PFlushStart;
-     PPutWS 1001 [1] VOk; PPutPos 1 VOk; Check 1 [1] []]) = true.
+    [Append (mkEv true 1001 false); Start; RInitOk 0; RReadEnd [1]; PLookup 1 true; PInvoke 1 true; RReadEnd []; Notify 1; Tick; PFlushStart;
+     PPutWS 1001 [1] VOk; PPutPos 1 VOk; Check 1 [1] [] []]) = true.
 Proof. vm_compute. reflexivity. Qed.
 
 Print Assumptions invoked_in_order.
@@ -181,6 +219,7 @@ Print Assumptions position_le_all_effects.
 Print Assumptions position_le_effects.
 Print Assumptions position_le_all_effects_refuted.
 Print Assumptions position_le_all_effects_partial.
+Print Assumptions position_le_effects_refuted_without_descriptor_error.
 Print Assumptions resume_not_past_unpersisted.
 Print Assumptions quiescent_all_effects.
 Print Assumptions accepted_traces_are_runs.
